@@ -5,7 +5,7 @@ import numpy as np
 
 ID = "C10"
 PROPS_FILE = "theories/Props/C10.v"
-EXTRACT = ("theories/Extract/XC10.v", "c10", ["entry_emd", "entry_emdc", "entry_emdl", "entry_cert", "entry_partial", "entry_brute"])
+EXTRACT = ("theories/Extract/XC10.v", "c10", ["entry_emd", "entry_emdc", "entry_emdl", "entry_emdlf", "entry_cert", "entry_partial", "entry_brute"])
 PYX = {"_fastemd.pyx": ["emd_hat_int32"]}
 RULE = ("one case = one instance (p, q, c, penalty|None) plus an encoding; the implementation is called through "
         "centrosome.fastemd for all variants: flow type NO_FLOW / WITHOUT_TRANSHIPMENT_FLOW / WITHOUT_EXTRA_MASS_FLOW x gd_metric "
@@ -415,8 +415,16 @@ def _run_models(ctx, cases):
     for k, r in zip(where, ctx.run_model("entry_emdc", args)):
         res[k].append(r)
     ll = [[] for _ in cases]
-    for k, r in zip(where, ctx.run_model("entry_emdl", args)):
+    nflag = 0
+    for k, r in zip(where, ctx.run_model("entry_emdlf", args)):
+        # (dist F flag): the flag records a hop of an augmenting path between two nodes joined by != 1 arc (in these
+        # graphs: through the artificial node) or ending at an unreachable node; the proofs assume it clear
+        if isinstance(r, list) and len(r) == 3:
+            nflag += 1 if r[2] else 0
+            r = r[:2]
         ll[k].append(r)
+    ctx.count("line-level model runs (variants)", len(args))
+    ctx.count("line-level model runs with the companion flag SET", nflag)
     _run_models.ll = ll
     return res
 
